@@ -19,11 +19,19 @@ import (
 )
 
 func genBits(r *rand.Rand) float64 {
+	// texts of several hundred digits are expensive to evaluate inside Coq: extreme magnitudes one time in four
+	far := r.Intn(4) == 0
 	switch r.Intn(10) {
 	case 0: // any bit pattern: NaNs, denormals, huge and tiny magnitudes
-		return math.Float64frombits(r.Uint64())
+		if far {
+			return math.Float64frombits(r.Uint64())
+		}
+		return math.Float64frombits(r.Uint64()&^(0x7ff<<52) | uint64(1023-70+r.Intn(140))<<52)
 	case 1: // powers of two and their neighbours (the asymmetric rounding interval)
-		x := math.Ldexp(1, r.Intn(2098)-1074)
+		x := math.Ldexp(1, r.Intn(140)-70)
+		if far {
+			x = math.Ldexp(1, r.Intn(2098)-1074)
+		}
 		switch r.Intn(3) {
 		case 0:
 			return math.Nextafter(x, 0)
@@ -43,7 +51,10 @@ func genBits(r *rand.Rand) float64 {
 		}
 		return b
 	case 4: // denormals
-		return math.Float64frombits(uint64(r.Int63n(1 << 52)))
+		if far {
+			return math.Float64frombits(uint64(r.Int63n(1 << 52)))
+		}
+		return float64(r.Int63n(1<<53)) / float64(int64(1)<<uint(r.Intn(60)))
 	case 5:
 		return math.Copysign(0, -1)
 	default:
